@@ -1,6 +1,7 @@
 // Instantiation driver for the serialization traits (property C11).
 #include "common.h"
 
+#include "babylon/reusable/string.h"
 #include "babylon/reusable/vector.h"
 #include "babylon/serialization.h"
 
@@ -109,6 +110,10 @@ void instantiate() {
     ::babylon::SwissAllocator<int32_t> allocator {resource};
     ::babylon::SwissVector<int32_t> rv {allocator};
     round_trip(rv);
+    ::babylon::SwissString rs {::babylon::SwissAllocator<char> {resource}};
+    round_trip(rs);
+    ::babylon::SwissVector<::babylon::SwissString> rvs {::babylon::SwissAllocator<::babylon::SwissString> {resource}};
+    round_trip(rvs);
   }
 }
 
